@@ -15,6 +15,8 @@ lists of calls:
       returned before it;
 * T9b `write_then_load_across` — T3 across a history: `Write(data)` returned nil, then any calls on other paths, then
       `Load()` returns the shape and the row-major elements of the source view as they were at the time of the Write;
+* T9d `history_last_write_wins`, T9e `history_last_writeSlice` — over WHOLE histories with any number of earlier writers
+      to the same path: the last `Write` (resp. `WriteSlice`) of a path determines what is found there at the end;
 * T9c `writeSlice_then_load_across` — T4 across a history: the dataset after `WriteSlice` + any calls on other paths
       differs from the dataset before exactly on the block.
 
@@ -88,6 +90,46 @@ theorem writeSlice_then_load_across (h : Heap Int) (a : Arr) (hr : Reach a.v) (o
   rw [h2]
   exact h6
 
+/-- T9d (the LAST writer of a path wins, over whole histories). Started on no file or on any well-formed file, for EVERY
+history `pre ++ Write(data → path) :: post` in which that `Write` returned nil and no LATER call names `path` — the calls
+in `pre` are arbitrary and may include any number of earlier `Write / WriteSlice / Create` calls on the same path —
+`Load()` at the end returns the shape and the row-major elements of that last written view. -/
+theorem history_last_write_wins (d0 : Disk) (wf0 : DiskWF d0) (pre post : List Op)
+    (h : Heap Int) (a : Arr) (path : String) (hr : Reach a.v) (ok : ArrOK h a)
+    (hw : (write false h a (applyOps false d0 pre) path).2 = .ok ())
+    (hother : ∀ op ∈ post, splitPath path ≠ splitPath op.path) :
+    ∃ vals, OW.NdC02.getAll h a (OW.NdC02.rowMajor a.v.dims) = .ok vals ∧
+      load false (applyOps false d0 (pre ++ .write h a path :: post)) path none = .ok (a.v.dims, vals) := by
+  have hw' : write false h a (applyOps false d0 pre) path = ((write false h a (applyOps false d0 pre) path).1, .ok ()) := by
+    rw [← hw]
+  obtain ⟨vals, h1, h2⟩ := write_then_load_across h a hr ok _ _ path (ops_preserve_WF false d0 wf0 pre) hw' post hother
+  refine ⟨vals, h1, ?_⟩
+  rw [applyOps_append]
+  exact h2
+
+/-- T9e (the last `WriteSlice` of a path, over whole histories). For every history `pre ++ WriteSlice(data, loc → path)
+:: post` started on no file or a well-formed file, where the dataset exists at that point with the block inside it and no
+later call names `path`: at the end the dataset has the shape it had just before that call, the elements of the source
+inside the block and the elements it had just before that call outside. -/
+theorem history_last_writeSlice (d0 : Disk) (wf0 : DiskWF d0) (pre post : List Op)
+    (h : Heap Int) (a : Arr) (path : String) (loc : Idx) (hr : Reach a.v) (ok : ArrOK h a)
+    {t : Tree} {p : Path} {s : List Nat} {v : List Int}
+    (hd : applyOps false d0 pre = some t) (hod : openDataset t path = .ok (p, s, v))
+    (hb : BlockIn (intsToUints loc) (intsToUints a.v.dims) s)
+    (hother : ∀ op ∈ post, splitPath path ≠ splitPath op.path) :
+    ∃ vals v' t', OW.NdC02.getAll h a (OW.NdC02.rowMajor a.v.dims) = .ok vals ∧
+      applyOps false d0 (pre ++ .writeSlice h a path loc :: post) = some t' ∧
+      find t' p = some (.ds s v') ∧ v'.length = v.length ∧
+      (∀ c, CoordIn c s → v'[ravelN c s]? =
+        if inBlock c (intsToUints loc) (intsToUints a.v.dims) = true
+        then vals[ravelN (List.zipWith (· - ·) c (intsToUints loc)) (intsToUints a.v.dims)]?
+        else v[ravelN c s]?) := by
+  have wf : WF t := ops_preserve_WF false d0 wf0 pre t hd
+  obtain ⟨vals, v', t', h1, h2, h3, h4, h5⟩ := writeSlice_then_load_across h a hr ok hod wf loc hb post hother
+  refine ⟨vals, v', t', h1, ?_, h3, h4, h5⟩
+  rw [applyOps_append, hd]
+  exact h2
+
 /-! ### non-vacuity -/
 namespace Ex
 open OW.Props.C02.Ex
@@ -125,6 +167,21 @@ example : load false (applyOps false (some [(["a"], .ds [2, 2] [0, 2, 8, 10])])
     rw [h3] at h1; cases h1; rfl
   subst this
   exact h2
+
+/-- T9d instance: hypotheses of `history_last_write_wins` hold together (a history whose earlier calls leave no file,
+the `Write` of the stepped view returns nil, later calls name "b") -/
+example : ∃ vals, OW.NdC02.getAll heap stepped (OW.NdC02.rowMajor stepped.v.dims) = .ok vals ∧
+    load false (applyOps false none ([.load "a" none, .load "b" none] ++ .write heap stepped "a" ::
+      [.create "b" [2, 2], .writeSlice heap stepped "b" [0, 0]])) "a" none = .ok (stepped.v.dims, vals) :=
+  history_last_write_wins none (fun _ h => by cases h) [.load "a" none, .load "b" none]
+    [.create "b" [2, 2], .writeSlice heap stepped "b" [0, 0]] heap stepped "a" reach_stepped ok_stepped
+    (by
+      show (write false heap stepped none "a").2 = .ok ()
+      rw [write_stepped])
+    (by
+      intro op hop
+      simp only [List.mem_cons, List.not_mem_nil, or_false] at hop
+      rcases hop with rfl | rfl <;> simp [Op.path, splitPath_a, splitPath_b])
 
 end Ex
 end OW.Props.C08
